@@ -19,6 +19,7 @@ import (
 	"fmt"
 	"strings"
 
+	"github.com/ontio/ontology-crypto/ec"
 	"github.com/ontio/ontology-crypto/keypair"
 	s "github.com/ontio/ontology-crypto/signature"
 	"github.com/ontio/ontology/common"
@@ -311,16 +312,27 @@ func acceptedConditions(raw []byte, r runRes) (string, string, []setCheck) {
 func panicClass(tx *types.Transaction) string {
 	for _, rs := range tx.Sigs {
 		vt, _ := sg.Tokens(rs.Verify)
-		eth := false
+		eth, offCurve := false, false
 		for _, t := range vt {
-			if t.Kind == 'd' && len(t.Data) > 0 && t.Data[0] == byte(keypair.PK_ETHECDSA) {
+			if t.Kind != 'd' {
+				continue
+			}
+			if len(t.Data) > 0 && t.Data[0] == byte(keypair.PK_ETHECDSA) {
 				eth = true
+			}
+			if pk, err := sg.ParseKey(t.Data); err == nil {
+				if k, ok := pk.(*ec.PublicKey); ok && !k.Curve.IsOnCurve(k.X, k.Y) {
+					offCurve = true
+				}
 			}
 		}
 		it, _ := sg.Tokens(rs.Invoke)
 		for _, t := range it {
 			if eth && t.Kind == 'd' && len(t.Data) >= 2 && len(t.Data) < 65 && t.Data[0] == byte(s.KECCAK256WithECDSA) {
 				return "panic:eth-key-short-keccak-signature"
+			}
+			if offCurve && t.Kind == 'd' && len(t.Data) >= 2 && t.Data[0] == byte(s.SM3withSM2) {
+				return "panic:off-curve-key-sm2-signature"
 			}
 		}
 	}
